@@ -31,6 +31,130 @@ def guard_leaks(body):
     return out
 
 
+LAUNDER_CALLS = set(["transmute", "transmute_copy", "as_ref", "as_mut", "as_ref_unchecked", "as_mut_unchecked", "as_uninit_ref", "as_uninit_mut",
+                     "from_raw_parts", "from_raw_parts_mut", "from_ref", "from_mut", "read", "read_unaligned", "read_volatile"])
+
+
+def _is_ptr(ty):
+    return ty.startswith("*const ") or ty.startswith("*mut ") or ty.startswith("std::ptr::NonNull<")
+
+
+def _is_ref(ty):
+    return ty.startswith("&")
+
+
+def _flow(body, seed):
+    """Locals of the body that carry a value, a reference or a raw pointer derived from a seed local (copies, borrows of any
+    part, casts, and results of calls that were handed one and return a reference / pointer / guard)."""
+    locs = body.raw["locals"]
+    derived = set(i for i in range(len(locs)) if seed(i, locs[i]["ty"]))
+    boxptr = set()      # raw pointers taken out of a Box (the lowering of `*boxed`): owned storage, not a borrow being re-made
+
+    def reads(rv):
+        for k in ("op", "a", "b"):
+            o = rv.get(k)
+            if isinstance(o, dict) and "place" in o:
+                yield o["place"]
+        for o in rv.get("ops", []):
+            if isinstance(o, dict) and "place" in o:
+                yield o["place"]
+        if "place" in rv:
+            yield rv["place"]
+
+    changed = True
+    while changed:
+        changed = False
+        for blk in body.blocks:
+            for st in blk["stmts"]:
+                if st["k"] != "assign":
+                    continue
+                d = st["place"]["l"]
+                for pl in reads(st["rv"]):
+                    if st["rv"]["k"] == "cast" and locs[pl["l"]]["ty"].startswith("std::boxed::Box<") and _is_ptr(locs[d]["ty"]):
+                        boxptr.add(d)
+                    if (pl["l"] in derived or any(g in pl.get("ty", "") for g in GUARD_MARKS)) and d not in derived:
+                        derived.add(d)
+                        changed = True
+            t = blk["term"]
+            if t["k"] == "call" and t.get("dest"):
+                d = t["dest"]["l"]
+                dty = locs[d]["ty"]
+                if d not in derived and (_is_ref(dty) or _is_ptr(dty) or any(g in dty for g in GUARD_MARKS) or dty.startswith("std::option::Option<&")):
+                    if any("place" in a and a["place"]["l"] in derived for a in t["args"]):
+                        derived.add(d)
+                        changed = True
+    return derived, boxptr
+
+
+def _remade(body, derived, boxptr):
+    """Sites of the body where a reference is made anew - from a raw pointer or by transmutation - out of a derived value: from
+    there on the borrow checker no longer ties the reference to what it was derived from."""
+    locs = body.raw["locals"]
+    out = []
+    for bb, blk in enumerate(body.blocks):
+        if blk["cleanup"]:
+            continue
+        for st in blk["stmts"]:
+            if st["k"] != "assign":
+                continue
+            rv = st["rv"]
+            if rv["k"] == "ref":
+                pl = rv["place"]
+                if pl["p"] and pl["p"][0]["k"] == "deref" and _is_ptr(locs[pl["l"]]["ty"]) and pl["l"] in derived and pl["l"] not in boxptr:
+                    out.append((bb, "&*(raw pointer)"))
+            elif rv["k"] == "cast" and rv["kind"].startswith("Transmute") and _is_ref(rv["ty"]):
+                o = rv["op"]
+                if "place" in o and o["place"]["l"] in derived:
+                    out.append((bb, "transmute to %s" % rv["ty"]))
+        t = blk["term"]
+        if t["k"] == "call" and t.get("dest"):
+            c = Callee(t["func"])
+            dty = locs[t["dest"]["l"]]["ty"]
+            if not c.local and c.name in LAUNDER_CALLS and ("ptr" in c.path or "mem::" in c.path or "intrinsics" in c.path or "slice::" in c.path) \
+                    and (_is_ref(dty) or "Option<&" in dty or any(g in dty for g in GUARD_MARKS)) \
+                    and any("place" in a and a["place"]["l"] in derived for a in t["args"]):
+                out.append((bb, c.short()))
+    return out
+
+
+def _unbound_output(sig):
+    """Does the signature name a lifetime in its result that no argument carries (so the caller picks it freely)?"""
+    import re
+    if not sig or "->" not in sig:
+        return False
+    head, res = sig.rsplit("->", 1)
+    ins = set(re.findall(r"'[a-z_][a-z0-9_]*", head.split("fn(", 1)[-1]))
+    outs = set(re.findall(r"'[a-z_][a-z0-9_]*", res)) - set(["'static", "'_"])
+    return bool(outs - ins)
+
+
+def guard_launder(facts):
+    """(body, block, how) for every place of the crate where a reference to what a borrow guard protects is re-made through a raw
+    pointer, a transmutation, or a helper of the crate that does so for its argument: such a reference can outlive the guard."""
+    launderers = {}
+    for b in facts.bodies.values():
+        if b.is_closure or not _unbound_output(b.raw.get("sig")):
+            continue
+        n = b.raw.get("arg_count", 0)
+        der, bx = _flow(b, lambda i, ty: 1 <= i <= n and (_is_ref(ty) or _is_ptr(ty)))
+        if _remade(b, der, bx):
+            launderers[b.key] = b
+    out = []
+    n_bodies = 0
+    for b in sorted(facts.bodies.values(), key=lambda b: b.key):
+        der, bx = _flow(b, lambda i, ty: any(g in ty for g in GUARD_MARKS))
+        if not der:
+            continue
+        n_bodies += 1
+        for bb, how in _remade(b, der, bx):
+            out.append((b, bb, how))
+        for bb, t in b.normal_calls():
+            c = Callee(t["func"])
+            if c.local and c.key in launderers and any("place" in a and a["place"]["l"] in der for a in t["args"]):
+                out.append((b, bb, "%s, whose result lifetime is not tied to its argument" % c.short()))
+    return out, n_bodies
+
+
 def release(ctx, report, rule, facts, config):
     """Guards own their borrow, have no Drop impl of their own, and are never leaked."""
     for path, (fld, want) in sorted(GUARDS.items()):
@@ -46,6 +170,12 @@ def release(ctx, report, rule, facts, config):
             n += 1
             report.ob(rule, "leak/%s" % b.qname, False, "a borrow guard is leaked through %s: the resource stays borrowed forever" % c.short(), site=b.loc(bb), config=config)
     report.ob(rule, "no-guard-leak", n == 0, "no mem::forget / ManuallyDrop / leak / into_raw on a guard type in the crate", config=config)
+    hits, n_bodies = guard_launder(facts)
+    for b, bb, how in hits:
+        report.ob(rule, "outlive/%s" % b.qname, False, "a reference to guarded data is re-made through %s: it is no longer tied to the guard and can outlive the borrow it stands for" % how, site=b.loc(bb), config=config)
+    report.ob(rule, "no-reference-outlives-guard", not hits, ("no reference derived from a borrow guard is re-made through a raw pointer or a transmutation (%d bodies handle guards)" % n_bodies) if not hits else
+              "%d site(s) re-make a reference to guarded data outside the borrow checker's view" % len(hits), config=config)
+    report.floor(rule, "bodies handling borrow guards", n_bodies, 20, config=config)
 
 
 # ------------------------------------------------------------------ C14
@@ -72,7 +202,12 @@ def noswallow(ctx, report, rule, facts, config):
                 continue
             n += 1
             report.ob(rule, "swallow/%s" % b.qname, False, "%s in %s: a panicking system would not reach the caller of dispatch unchanged" % (c.short(), b.qname), site=b.loc(bb), config=config)
-    report.ob(rule, "no-catch-unwind", n == 0, "no catch_unwind / resume_unwind where systems run (%d bodies in the run cone), no panic hook manipulation in the crate (%d bodies scanned)" % (len(cone), len(facts.bodies)), config=config)
+    for b in sorted(cone.values(), key=lambda b: b.key):
+        for bb, c in I.thread_handoffs(b):
+            n += 1
+            report.ob(rule, "swallow/%s" % b.qname, False, "%s in %s: what runs on a thread of its own ends its panic in the join handle, not in the caller of dispatch" % (c.short(), b.qname), site=b.loc(bb), config=config)
+    report.ob(rule, "no-catch-unwind", n == 0, ("no catch_unwind / resume_unwind / std::thread hand-off where systems run (%d bodies in the run cone), no panic hook manipulation in the crate (%d bodies scanned)" % (len(cone), len(facts.bodies)))
+              if n == 0 else "%d place(s) where a panicking system would not reach the caller of dispatch unchanged" % n, config=config)
 
 
 DISPATCH_FIELDS = [(A.SD, "stages"), (A.STAGE, "groups"), (A.DISP, "thread_local"), (A.DISP, "inner"), (A.BCS, "dispatcher"), (A.AD_INNER, "stages")]
@@ -374,6 +509,61 @@ def par_shape(ctx, report, rule, facts, config):
     b = F.inh(facts, A.DISP, "dispatch")
     cov = coverage(prog, b, Src(SELF, ["inner"]), {"dispatch"})
     report.ob(rule, "route/Dispatcher::dispatch", cov.status == "once", cov.detail, site=b.loc(), config=config)
+
+
+def _pool_sites(events, key, depth, out):
+    """Calls of `key` met on one way, each with whether it happens inside what was handed to the pool's install / spawn."""
+    for x in events:
+        if x[0] == "once" and x[2] in ("install", "spawn"):
+            depth += 1
+        elif x[0] == "once-end" and depth:
+            depth -= 1
+        elif x[0] == "loop":
+            for it in x[1].iters:
+                _pool_sites(it.path.events, key, depth, out)
+        elif x[0] == "call" and (x[2].key == key or getattr(x[2], "resolved_key", None) == key):
+            out.append((x[1], depth > 0))
+    return out
+
+
+def execute_in_pool(ctx, report, rule, facts, config):
+    """The parallel fan-out of a stage uses the pool of the thread it is called on (rayon's rule).  It uses the dispatcher's pool
+    only if every call of Stage::execute happens inside the closure handed to that pool's install / spawn: decided in every
+    function that calls it, for private helpers in their callers."""
+    from . import semq as Q
+    ex = F.inh(facts, A.STAGE, "execute")
+    callers = facts.callers()
+
+    def root(b):
+        return facts.bodies.get(b.root_key, b) if b.is_closure and b.root_key else b
+
+    def decide(fn, key, seen):
+        ev, ends = Q.sem(ctx, facts, fn, opaque=[key])
+        sites = []
+        for e in ends:
+            _pool_sites(e.path.events, key, 0, sites)
+        if not sites:
+            return True, None      # the call is not on any way through (dead code)
+        if all(inside for _, inside in sites):
+            return True, None
+        if not fn.api and fn.key not in seen and callers.get(fn.key):
+            for cb, bb in callers[fn.key]:
+                ok, why = decide(root(cb), fn.key, seen | set([fn.key]))
+                if not ok:
+                    return False, why
+            return True, None
+        return False, fn
+
+    roots = {}
+    for cb, bb in callers.get(ex.key, []):
+        roots.setdefault(root(cb).key, root(cb))
+    for r in sorted(roots.values(), key=lambda b: b.key):
+        report.touched(r, config)
+        ok, why = decide(r, ex.key, frozenset())
+        report.ob(rule, "execute-in-pool/%s" % r.qname, ok, "Stage::execute is called only inside what is handed to the pool's install / spawn" if ok else
+                  "Stage::execute is reached from %s outside the pool's install / spawn: the groups of a stage would be run on whatever pool the calling thread "
+                  "belongs to, not on the dispatcher's" % why.qname, site=r.loc(), config=config)
+    report.floor(rule, "functions calling Stage::execute", len(roots), 1, config=config)
 
 
 # ------------------------------------------------------------------ C15
